@@ -84,29 +84,45 @@ Example T13_wf_nonvacuous :
 Proof. cbv zeta. destruct (run_cfg _ _ _) as [h rs] eqn:E. split; [|split; [|split]];
   try (vm_compute in E; injection E as <- <-; vm_compute; reflexivity). eapply run_WFup; [apply (WFup_init 2)|exact E]. Qed.
 
-(** T13_chardata: INDEX_SIZE_ERR exactly when offset > length (insertData, deleteData, substringData, splitText);
-    insertData splices at the offset *)
+(** T13_chardata: INDEX_SIZE_ERR exactly when offset > length (insertData, deleteData, substringData, splitText),
+    offsets and counts being arbitrary 64-bit values *)
 Theorem T13_chardata_index : forall h n off cnt s, n_ro (nd h n) = false ->
-  (snd (cd_insert h n off s) = RErr INDEX_SIZE <-> length (n_val (nd h n)) < off) /\
-  (snd (cd_delete h n off cnt) = RErr INDEX_SIZE <-> length (n_val (nd h n)) < off) /\
-  (snd (cd_substring h n off cnt) = RErr INDEX_SIZE <-> length (n_val (nd h n)) < off) /\
-  (length (n_val (nd h n)) < off -> forall cf, split_text cf h n off = (h, RErr INDEX_SIZE)).
+  (snd (cd_insert h n off s) = RErr INDEX_SIZE <-> (dlen h n < off)%N) /\
+  (snd (cd_delete h n off cnt) = RErr INDEX_SIZE <-> (dlen h n < off)%N) /\
+  (snd (cd_substring h n off cnt) = RErr INDEX_SIZE <-> (dlen h n < off)%N) /\
+  ((dlen h n < off)%N -> forall cf, split_text cf h n off = (h, RErr INDEX_SIZE)).
 Proof.
   intros h n off cnt s R. repeat split; try apply cd_insert_index; try apply cd_delete_index; try apply cd_substring_index; auto.
   intros L cf. apply split_index; assumption.
 Qed.
 Print Assumptions T13_chardata_index.
 
-Theorem T13_chardata_insert : forall h n off s, n < length h -> n_ro (nd h n) = false -> off <= length (n_val (nd h n)) ->
-  n_val (nd (fst (cd_insert h n off s)) n) = firstn off (n_val (nd h n)) ++ s ++ skipn off (n_val (nd h n)).
+Theorem T13_chardata_insert : forall h n off s, n < length h -> n_ro (nd h n) = false -> (off <= dlen h n)%N ->
+  n_val (nd (fst (cd_insert h n off s)) n) =
+  firstn (N.to_nat off) (n_val (nd h n)) ++ s ++ skipn (N.to_nat off) (n_val (nd h n)).
 Proof. exact cd_insert_value. Qed.
 Print Assumptions T13_chardata_insert.
 
+(** deleteData with ANY 64-bit count (XMLSize_t arithmetic wraps, [wadd]): exactly the units from off up to
+    min(off + cnt, length) go away -- a count beyond the end, even one for which off + cnt wraps around 2^64, means
+    "to the end".  (Data of 2^63 units does not fit a 64-bit address space.) *)
+Theorem T13_chardata_delete : forall h n off cnt, n < length h -> n_ro (nd h n) = false ->
+  (off <= dlen h n)%N -> (cnt < w64)%N -> (2 * dlen h n < w64)%N ->
+  n_val (nd (fst (cd_delete h n off cnt)) n) =
+  firstn (N.to_nat off) (n_val (nd h n)) ++ skipn (N.to_nat (off + N.min cnt (dlen h n - off))) (n_val (nd h n)).
+Proof. exact cd_delete_value. Qed.
+Print Assumptions T13_chardata_delete.
+
+Example T13_chardata_delete_wraps :
+  let h := fst (step (init_heap 1) (OCreate 0 TText [] [97; 98; 99; 100; 101; 102]%N)) in
+  n_val (nd (fst (step h (ODeleteData 1 1 18446744073709551615))) 1) = [97%N].
+Proof. vm_compute. reflexivity. Qed.
+
 (** exceptions leave the heap unchanged -- proved for removeChild and the character-data operations (which check
-    before they mutate); for insertBefore/replaceChild/splitText/cloneNode/normalize it is NOT proved (and it is false for
+    before they mutate) and, below, for insertBefore without a fragment; for replaceChild/splitText/cloneNode/normalize/renameNode it is NOT proved (and it is false for
     a DocumentFragment moved into a Document, T13_fragment_into_document_refuted); the correspondence compares the full
     dump after every raising operation *)
-Theorem T13_error_unchanged_partial : forall h p c n off cnt s h' e,
+Theorem T13_error_unchanged_partial : forall h p c n (off cnt : N) s h' e,
   (v_remove h p c = (h', RErr e) \/
    cd_set h n s = (h', RErr e) \/ cd_append h n s = (h', RErr e) \/ cd_insert h n off s = (h', RErr e) \/
    cd_delete h n off cnt = (h', RErr e) \/ cd_substring h n off cnt = (h', RErr e)) -> h' = h.
@@ -114,3 +130,38 @@ Proof.
   intros h p c n off cnt s h' e [H|H]; [eapply v_remove_error_unchanged; exact H|eapply chardata_error_unchanged; exact H].
 Qed.
 Print Assumptions T13_error_unchanged_partial.
+
+(** T13_error_unchanged for insertBefore / appendChild (any target incl. Document and Attr, any cfg) when newChild
+    is not a DocumentFragment: a DOMException leaves the heap exactly as it was.  For a DocumentFragment newChild the
+    claim is NOT proved (it needs the sibling-chain invariant to show that the move loop cannot fail once the pre-scan
+    passed) and is false for a Document target (F27); the correspondence covers it with fragments whose children are
+    illegal for the target at every position. *)
+Theorem T13_insert_error_unchanged_partial : forall fuel cf h this new ref h' e,
+  n_ty (nd h new) <> TFrag -> ins fuel cf h this new ref = (h', RErr e) -> h' = h.
+Proof. exact ins_error_unchanged. Qed.
+Print Assumptions T13_insert_error_unchanged_partial.
+
+(** renameNode on the model: a Level-1 element in the middle of its siblings renamed into a namespace is replaced by a
+    new node at the SAME position, which takes over children and attributes (the reference DOM agrees) *)
+Example T13_rename_keeps_position :
+  let l := [OCreate 0 TElem A []; OAppend 0 1; OCreate 0 TElem A []; OCreate 0 TElem X []; OCreate 0 TElem A [];
+            OAppend 1 2; OAppend 1 3; OAppend 1 4; OCreate 0 TText [] X; OAppend 3 5; OSetAttr 3 A X;
+            ORename 0 3 X [112; 58; 98]%N] in
+  let '(h, rs) := run_cfg cfg_fixed (init_heap 1) l in
+  kids h 1 = [2; 6; 4] /\ kids h 6 = [5] /\ kids h 3 = [] /\ n_attrs (nd h 6) = [(A, X)] /\ n_attrs (nd h 3) = [] /\
+  abs h = fst (srun (sinit 1) l).
+Proof. vm_compute. repeat split; reflexivity. Qed.
+
+(** KNOWN FINDINGS F30 / F31 on the faithful model *)
+Theorem T13_rename_unchecked_name_refuted :
+  let h := fst (step (init_heap 1) (OCreate 0 TElem A [])) in
+  snd (step h (ORename 0 1 [] [49; 97]%N)) = RNode 1 /\ snd (sstep (abs h) (ORename 0 1 [] [49; 97]%N)) = RErr INVALID_CHAR.
+Proof. vm_compute. split; reflexivity. Qed.
+Print Assumptions T13_rename_unchecked_name_refuted.
+
+Theorem T13_rename_ns_error_changes_name_refuted :
+  let h := fst (run_cfg cfg_fixed (init_heap 1) [OCreate 0 TElem A []; ORename 0 1 X [112; 58; 98]%N]) in
+  let '(h1, r) := step h (ORename 0 2 X [113; 58]%N) in
+  r = RErr NAMESPACE /\ n_name (nd h 2) = [112; 58; 98]%N /\ n_name (nd h1 2) = [113; 58]%N.
+Proof. vm_compute. repeat split; reflexivity. Qed.
+Print Assumptions T13_rename_ns_error_changes_name_refuted.
